@@ -35,7 +35,8 @@ def run(rep):
                        "func-typed var / type-used-in-a-conversion, in two thirds of the conflicting packages exactly the next "
                        "candidates newName tries for the conflicting call; file split at random; + random packages of 5..12 "
                        "calls over 8 types and 4 plugins (equal, compare, tuple with one or two arguments, hash) with injected "
-                       "conflicts and duplicates; distinct = distinct (package, flags) runs whose "
+                       "conflicts and duplicates; + an `imported` stream: all assignments of <= 2 equal calls (+ random 3..5 calls) to 3 names x "
+                       "{*User, User of two imported packages both named model, local *User}: types spelled alike but different; distinct = distinct (package, flags) runs whose "
                        "package contains at least one conflict or duplicate")
     rep.assumptions += [
         "the argument types of the T2 packages are pairwise non-assignable unless identical (the property's own domain; "
